@@ -61,8 +61,9 @@ def run(run, binfo):
                                             creds['project_id'] = 'p1'
                                         # default check string decides the opposite of the override
                                         eff = 'role:member' if allow else 'role:nobody'
-                                        if by != 'name' and len(cases) % 2:
-                                            # a constant check, as the parser hands it out
+                                        if (by != 'name' and len(cases) % 2) or (by == 'name' and len(cases) % 4 == 1):
+                                            # a constant check, as the parser hands it out (also as the effective check of
+                                            # a registered name: the scope gate comes first whatever the check is)
                                             eff = '@' if allow else '!'
                                         reg_check = ('role:nobody' if allow else 'role:member') if overridden else eff
                                         if by == 'name':
